@@ -43,3 +43,6 @@ Lemma parse_defaults_thread_local :
 Proof. reflexivity. Qed.
 Lemma no_unlisted_shared_writes : Facts.unlisted_shared_writes = 0%Z. Proof. reflexivity. Qed.
 Lemma path_regex_expected : Facts.path_regex_is_expected = true. Proof. reflexivity. Qed.
+Lemma lookup_ref_dir_first_ok : Facts.lookup_ref_dir_first = true. Proof. reflexivity. Qed.
+Lemma lookup_cwd_only_without_ref_ok : Facts.lookup_cwd_only_without_ref = true. Proof. reflexivity. Qed.
+Lemma subbuilder_lookup_delegates_ok : Facts.subbuilder_lookup_delegates = true. Proof. reflexivity. Qed.
